@@ -7,7 +7,7 @@ from ..r_hygiene import rule_hygiene as _rule_hygiene
 from ..r_mdl import rule_first_m_end as _rule_first_m_end
 from ..r_alias import rule_retry_flush as _rule_retry_flush
 from ..r_round8 import rule_mol_property_positions as _r8_pos
-from ..r_round9 import rule_slice_shortcut as _r9_slice
+from ..r_round9 import rule_slice_shortcut as _r9_slice, rule_index_lands_on_header as _r9_idx
 
 LEVEL = 'other'
 EXEMPT = {
@@ -43,3 +43,4 @@ def run(ck, repo):
     rule_rdf_header_once(ck, repo, 'C11.D3-rdf-header-once')
     _r8_pos(ck, repo, 'C11.D6-property-line-positions')
     _r9_slice(ck, repo, 'C11.D7-slice-shortcut')
+    _r9_idx(ck, repo, 'C11.D7-index-lands-on-header')
